@@ -462,6 +462,7 @@ fn supply(dec: i64, idx: usize, need: &[Range<u64>], flen: u64, md: Option<&Parq
 struct PushRun { rows: Vec<i64>, trace: Vec<i64>, md: Arc<ParquetMetaData> }
 
 const CALL_CAP: usize = 20000;
+const MAX_CLEARS: usize = 2;
 
 fn run_push_decoder(f: &FileInfo, a: &Args, o: &Opts) -> PResult<PushRun> {
     let mode = to_i64s(&a[8]);
@@ -472,6 +473,9 @@ fn run_push_decoder(f: &FileInfo, a: &Args, o: &Opts) -> PResult<PushRun> {
     let slice = |r: &Range<u64>| f.data.slice(r.start as usize..r.end as usize);
     let mut t = Trace(Vec::new());
     let mut nneed = 0usize;
+    // clear_all_ranges throws away what was supplied before: together with partial supplies it could
+    // livelock the SUPPLIER (not the decoder), so a run clears at most MAX_CLEARS times
+    let mut nclear = 0usize;
     let dec_at = |i: usize| if decs.is_empty() { 0 } else { decs[i % decs.len()] };
 
     // metadata: loaded directly, or decoded by the metadata push decoder under the same supplier
@@ -486,7 +490,7 @@ fn run_push_decoder(f: &FileInfo, a: &Args, o: &Opts) -> PResult<PushRun> {
                     t.need(-1, &rs);
                     let s = supply(dec_at(nneed), nneed, &rs, flen, None);
                     nneed += 1;
-                    if s.clear { d.clear_all_ranges(); t.clear(-1); }
+                    if s.clear && nclear < MAX_CLEARS { nclear += 1; d.clear_all_ranges(); t.clear(-1); }
                     for c in s.calls { if c.is_empty() { continue; } d.push_ranges(c.clone(), c.iter().map(slice).collect())?; t.push(-1, &c); }
                 }
                 DecodeResult::Data(m) => break m,
@@ -553,7 +557,7 @@ fn run_push_decoder(f: &FileInfo, a: &Args, o: &Opts) -> PResult<PushRun> {
             if rs.is_empty() { t.stall(); break; }
             let s = supply(dec_at(nneed), nneed, &rs, flen, Some(&md));
             nneed += 1;
-            if s.clear { d.clear_all_ranges(); t.clear(d.buffered_bytes() as i64); }
+            if s.clear && nclear < MAX_CLEARS { nclear += 1; d.clear_all_ranges(); t.clear(d.buffered_bytes() as i64); }
             for c in s.calls {
                 if c.is_empty() { continue; }
                 if c.len() == 1 && nneed % 2 == 0 { d.push_range(c[0].clone(), slice(&c[0]))?; } else { d.push_ranges(c.clone(), c.iter().map(slice).collect())?; }
@@ -572,7 +576,7 @@ fn run_push(a: &Args, plan: bool) -> Args {
     let f = build_file(&to_i64s(&a[0]));
     let o = parse_opts(a);
     let sync = sync_rows(&f, a, &o);
-    let Some(sync) = sync.as_ref() else { return skip() };
+    let Some(sync) = sync.as_ref() else { return err(E_IO) };  // the sync reader must open every file the writer produced
     let r = match run_push_decoder(&f, a, &o) { Ok(r) => r, Err(e) => return err(kind_of(&e)) };
     if !plan {
         return vec![g(f.data.len()), gs(sync), gs(&r.rows), gs(&r.trace)];
@@ -731,7 +735,7 @@ fn run_async(a: &Args) -> Args {
     let f = build_file(&to_i64s(&a[0]));
     let o = parse_opts(a);
     let sync = sync_rows(&f, a, &o);
-    let Some(sync) = sync.as_ref() else { return skip() };
+    let Some(sync) = sync.as_ref() else { return err(E_IO) };  // the sync reader must open every file the writer produced
     let mode = to_i64s(&a[8]);
     let (api, meta_mode, vectored, seed, density) = (mode[0], mode[1], mode[2], mode[3], mode[4]);
     let log = Arc::new(Mutex::new(Trace(Vec::new())));
@@ -866,7 +870,7 @@ struct Recipe { rc: Vec<i64>, nleaves: usize, rg_counts: Vec<usize> }
 
 fn gen_recipe(r: &mut Rng, i: usize) -> Recipe {
     let kind = [0i64, 1, 1, 3, 0, 1, 2, 1][i % 8];
-    let nrows = match i % 11 { 0 => 0, 1 => 1, 2 => r.below(9), _ => 40 + r.below(if kind == 1 { 500 } else { 900 }) };
+    let nrows = match i % 16 { 0 => 0, 1 => 1 + r.below(8), _ => 40 + r.below(if kind == 1 { 500 } else { 900 }) };
     let rg_rows = match r.below(6) { 0 => 1 + r.below(30), 1 => nrows.max(1), 2 => 64, _ => 50 + r.below(300) };
     let rg_rows = rg_rows.max(nrows / 12 + 1);           // at most ~12 row groups
     let page_rows = *r.pick(&[1usize, 3, 8, 20, 33, 64, 100, 1000]);
@@ -896,7 +900,7 @@ fn gen_opts(r: &mut Rng, rc: &Recipe, plain: bool) -> Vec<Group> {
     };
     let row_groups: Vec<i64> = if nrg == 0 || r.chance(1, 2) { vec![-1] } else {
         match r.below(4) {
-            0 => (0..nrg as i64).filter(|_| r.bool()).collect(),
+            0 => { let v: Vec<i64> = (0..nrg as i64).filter(|_| r.chance(2, 3)).collect(); if v.is_empty() && r.chance(9, 10) { vec![r.below(nrg) as i64] } else { v } }
             1 => (0..nrg as i64).rev().collect(),                                  // reversed order
             2 => vec![r.below(nrg) as i64],
             _ => { let mut v: Vec<i64> = (0..nrg as i64).filter(|_| r.chance(2, 3)).collect(); if v.len() > 1 { let n = v.len(); v.swap(0, n - 1); } v }
@@ -913,17 +917,20 @@ fn gen_opts(r: &mut Rng, rc: &Recipe, plain: bool) -> Vec<Group> {
             let n = match style { 0 => 1 + r.below(3), 1 => 1 + r.below(page.max(1) * 2), 2 => 1 + r.below(rc.rc[1] as usize * 2), 3 => if v.len() % 2 == 0 { 1 + r.below(200) } else { 1 + r.below(4) }, _ => 1 + r.below(total.max(1)) };
             let n = n.min(left); v.push(n as i64); left -= n;
         }
-        if r.chance(1, 4) && !v.is_empty() { v.insert(0, 0); }    // start with a select run
+        let selected: i64 = v.iter().skip(1).step_by(2).sum();
+        if !v.is_empty() && (r.chance(1, 4) || (selected == 0 && r.chance(9, 10))) { v.insert(0, 0); }    // start with a select run
         v
     };
     let has_a = kind != 2;
     let preds: Vec<i64> = {
         let np = match r.below(6) { 0 | 1 => 0, 2 | 3 => 1, 4 => 2, _ => 3 };
         let mut v = Vec::new();
-        for _ in 0..np {
-            let k = match r.below(10) { 0 | 1 => 0, 2 => 1, 3 => 2, 4 | 5 if has_a => 3, 6 if has_a => 4, 7 => 5, 8 => 6, _ => 0 };
+        for pi in 0..np {
+            // chains that rule out whole row groups early: a range predicate on id first
+            if pi == 0 && np >= 2 && r.bool() { v.extend([1 + r.below(2) as i64, (nrows / 4 + r.below(nrows / 2 + 1)) as i64, 0]); continue; }
+            let k = match r.below(30) { 0..=7 => 0, 8..=11 => 1, 12..=15 => 2, 16..=21 if has_a => 3, 22..=25 if has_a => 4, 26 | 27 => 5, 28 => 6, _ => 0 };
             let (p1, p2) = match k {
-                0 => { let m = *r.pick(&[2i64, 3, 7, 50]); (m, r.below(m as usize) as i64) }
+                0 => { let m = *r.pick(&[2i64, 2, 3, 7, 13]); (m, r.below(m as usize) as i64) }
                 1 | 2 => (r.below(nrows + 2) as i64, 0),
                 3 => { let m = *r.pick(&[2i64, 3, 10]); (m, r.below(m as usize) as i64) }
                 4 => (*r.pick(&[2i64, 5, 9]), 0),
@@ -933,8 +940,9 @@ fn gen_opts(r: &mut Rng, rc: &Recipe, plain: bool) -> Vec<Group> {
         }
         v
     };
-    let offset: Vec<i64> = if r.chance(1, 3) { vec![*r.pick(&[0usize, 1, 5, nrows / 3, nrows / 2 + 1, nrows, nrows + 5]) as i64] } else { vec![] };
-    let limit: Vec<i64> = if r.chance(1, 3) { vec![*r.pick(&[0usize, 1, 2, 10, nrows / 4, nrows / 2, nrows, nrows + 5]) as i64] } else { vec![] };
+    let rgr = rc.rc[1] as usize;
+    let offset: Vec<i64> = if r.chance(1, 4) { vec![*r.pick(&[0usize, 1, 5, 5, nrows / 3, nrows / 3, rgr.saturating_sub(1), rgr, rgr + 1, 2 * rgr, nrows / 2 + 1, nrows, nrows + 5]) as i64] } else { vec![] };
+    let limit: Vec<i64> = if r.chance(1, 4) { vec![*r.pick(&[0usize, 1, 2, 10, 10, rgr.saturating_sub(1), rgr, rgr + 1, 2 * rgr + 3, nrows / 4, nrows / 2, nrows / 2, nrows, nrows + 5]) as i64] } else { vec![] };
     vec![gs(&opts), gs(&projection), gs(&row_groups), gs(&selection), gs(&preds), gs(&offset), gs(&limit)]
 }
 
@@ -965,19 +973,19 @@ fn tag_of(rc: &Recipe, opts: &[Group], mode: &[Group], what: &str) -> String {
 
 pub fn generate(tier: &str, r: &mut Rng, emit: &mut dyn FnMut(Case)) {
     let thorough = tier == "thorough";
-    gen_pushbuf(r, emit, if thorough { 20000 } else { 3000 });
-    gen_metabuf(r, emit, if thorough { 10000 } else { 1500 });
-    let nfiles = if thorough { 1500 } else { 150 };
+    gen_pushbuf(r, emit, if thorough { 60000 } else { 6000 });
+    gen_metabuf(r, emit, if thorough { 30000 } else { 3000 });
+    let nfiles = if thorough { 3000 } else { 300 };
     for i in 0..nfiles {
         let rc = gen_recipe(r, i);
-        let nopt = 3;
+        let nopt = 5;
         for oi in 0..nopt {
-            let plain = oi == 0;
+            let plain = oi < 2;
             let opts = gen_opts(r, &rc, plain);
             let mut base: Args = vec![gs(&rc.rc)];
             base.extend(opts.iter().cloned());
             // push decoder schedules
-            for _ in 0..if plain { 2 } else { 3 } {
+            for _ in 0..if plain { 2 } else { 4 } {
                 let mode = gen_push_mode(r);
                 let mut a = base.clone(); a.extend(mode.iter().cloned());
                 emit(Case::new("c15.push", a.clone(), &["c15.push.post1"], tag_of(&rc, &opts, &mode, "push")));
@@ -989,7 +997,7 @@ pub fn generate(tier: &str, r: &mut Rng, emit: &mut dyn FnMut(Case)) {
                 }
             }
             // async schedules
-            for _ in 0..if plain { 1 } else { 2 } {
+            for _ in 0..if plain { 1 } else { 3 } {
                 let mode = vec![gs(&[r.chance(1, 3) as i64, r.chance(1, 3) as i64, r.bool() as i64, r.below(1 << 30) as i64, r.below(5) as i64]), gs::<i64>(&[]), gs::<i64>(&[])];
                 let mut a = base.clone(); a.extend(mode.iter().cloned());
                 emit(Case::new("c15.async", a, &["c15.async.post1"], tag_of(&rc, &opts, &mode, "async")));
